@@ -986,9 +986,16 @@ def sums(ctx):
             ca = eng.analysis(cb)
             acc = ('pre', (('val', cb.params[1][0]),))
             v = ca.ret() if ca.exit_state is not None else None
-            good = v is not None and v[0] == 'gamma' and v[1][0] == 'eq' and acc in v[1][1:] and \
-                any(z != acc and 'is_some' in repr(z) and any(y[0] == 'pre' and y[1][0] in (('val', cb.params[2][0]), ('obj', cb.params[2][0])) for y in walk(z)) for z in v[1][1:]) and \
-                v[2] == ('ok', acc) and v[3][0] != 'ok'
+            good = False
+            if v is not None and v[0] == 'gamma':
+                cnd, th, el = v[1], v[2], v[3]
+                if cnd[0] == 'not':
+                    cnd, th, el = cnd[1], el, th
+                if cnd[0] == 'ne':
+                    cnd, th, el = ('eq',) + tuple(cnd[1:]), el, th
+                good = cnd[0] == 'eq' and acc in cnd[1:] and \
+                    any(z != acc and 'is_some' in repr(z) and any(y[0] == 'pre' and y[1][0] in (('val', cb.params[2][0]), ('obj', cb.params[2][0])) for y in walk(z)) for z in cnd[1:]) and \
+                    th == ('ok', acc) and el[0] != 'ok'
             ctx.check(good, R, key, 'the fold keeps its verdict only while every locomotive agrees with the first (all masses known or all unknown); a mixed consist is an error',
                       'the fold closure returns %s' % (show(v, ca.names)[:200] if v else None), ctx.where(cb))
     # ------------------------------------------------ locomotive mass = Σ of the parts its powertrain type has + baseline + ballast
